@@ -263,6 +263,22 @@ example : cubic 4 exX exY 2 4 ≤ cubic 4 exX exY 2 5 :=
   (interp_monotone_on_segment exX_inc (j := 2) (v := 4) (v' := 5) (by decide) (by decide +kernel) (by decide +kernel)
     (by decide +kernel)).1 (by decide +kernel)
 
+/-! ## 4a. Every constructor builds the same object -/
+
+/-- the table constructor `Interpolation(vector<vector<double>>)` on the rows `{x_i, y_i}` and both spellings of the
+    list constructor's call (operator() / named `Interpolate`) yield the object of `mk`; hence every theorem of this
+    file holds for each way a request can build the interpolant (`run1Dc`, constructor flag 0, 1, 2) -/
+theorem constructors_agree (ctor : Nat) (hc : ctor ≠ 3) (xs ys : List Rat) (h : xs.length = ys.length) (xdim fdim : Rat) :
+    construct ctor xs ys xdim fdim = mk xs ys xdim fdim := construct_eq_mk ctor hc xs ys h xdim fdim
+
+/-- the default constructor is a valid table (`{-1,0,1} → 0`) -/
+example : ∃ o, mkDefault = .ok o ∧ o.N = 3 := ⟨_, rfl, rfl⟩
+
+/-- proposed repair C01-2: testing the order after the unit conversion gives, over the rationals, the verdict of
+    testing it before (for the positive factors the conversion applies) -/
+theorem order_test_after_unit_conversion_noop {c : Rat} (hc : 0 < c) (l : List Rat) :
+    strictlyIncreasing (l.map (· * c)) = strictlyIncreasing l := strictlyIncreasing_map_mul_eq hc l
+
 /-! ## 4b. The 1 % extrapolation zone: explicit bound of the excursion beyond the end values
 
 `Locate` accepts abscissae up to and including 1 % of the end interval's width beyond the two end abscissae
